@@ -307,68 +307,59 @@ func ruleIdxUnits(c *Ctx) {
 				}
 			}
 			name := funcName(fd)
-			// running minima: locals lowered inside a range over a map[..]NodeIndex under `v < m`
-			minOf := map[types.Object]string{} // local -> ranged map expression
-			ast.Inspect(fd.Body, func(n ast.Node) bool {
-				rs, ok := n.(*ast.RangeStmt)
-				if !ok || rs.Value == nil {
-					return true
+			// running minima: locals lowered to min(m, v) inside a range over a map[..]NodeIndex (the branch form
+			// `if v < m { m = v }` is that same statement after load), here or in a helper that returns such a local
+			minOf := runningMins(info, fd.Body)
+			for o, d := range singleDefs(info, fd.Body) {
+				call, ok := ast.Unparen(d.rhs).(*ast.CallExpr)
+				if !ok || d.pos != 0 {
+					continue
 				}
-				if _, isMap := info.TypeOf(rs.X).Underlying().(*types.Map); !isMap {
-					return true
+				f := calleeFunc(info, call)
+				if f == nil || f.Pkg() != pk.Types {
+					continue
 				}
-				vid, ok := rs.Value.(*ast.Ident)
-				if !ok {
-					return true
+				hd := declOfFunc(pk, f)
+				if hd == nil || hd.Body == nil || hd.Type.Results == nil || len(hd.Type.Results.List) != 1 {
+					continue
 				}
-				ast.Inspect(rs.Body, func(m ast.Node) bool {
-					ifs, ok := m.(*ast.IfStmt)
-					if !ok {
-						return true
+				hm := runningMins(info, hd.Body)
+				// every return of the helper hands out the same running minimum over one of its parameters
+				var ret types.Object
+				okAll, any := true, false
+				ast.Inspect(hd.Body, func(n ast.Node) bool {
+					if _, isLit := n.(*ast.FuncLit); isLit {
+						return false
 					}
-					// `v < m` (or `v <= m`) in any spelling (m > v, !(v >= m)), v the ranged value, m a local
-					be, ok := ast.Unparen(ifs.Cond).(*ast.BinaryExpr)
-					if u, isNot := ast.Unparen(ifs.Cond).(*ast.UnaryExpr); isNot && u.Op == token.NOT {
-						be, ok = ast.Unparen(u.X).(*ast.BinaryExpr)
-					}
-					if !ok {
-						return true
-					}
-					x, ok1 := ast.Unparen(be.X).(*ast.Ident)
-					y, ok2 := ast.Unparen(be.Y).(*ast.Ident)
-					if !ok1 || !ok2 {
-						return true
-					}
-					if info.Uses[y] == info.Defs[vid] {
-						x, y = y, x
-					}
-					if info.Uses[x] != info.Defs[vid] {
-						return true
-					}
-					cut, cp, cop := condCutOf(info, ifs.Cond, nil)
-					wp := polyAdd(polyAtom(x.Name), polyAtom(y.Name), -1)
-					isMin := false
-					for _, wop := range []token.Token{token.LSS, token.LEQ} {
-						if cut == canonCut(wp, wop) && cutSide(cp, cop) == cutSide(wp, wop) {
-							isMin = true
-						}
-					}
-					if !isMin {
-						return true
-					}
-					for _, st := range ifs.Body.List {
-						if as, ok := st.(*ast.AssignStmt); ok && len(as.Lhs) == 1 && len(as.Rhs) == 1 {
-							if l, ok := as.Lhs[0].(*ast.Ident); ok && info.Uses[l] == info.Uses[y] {
-								if r, ok := ast.Unparen(as.Rhs[0]).(*ast.Ident); ok && info.Uses[r] == info.Defs[vid] {
-									minOf[info.Uses[y]] = types.ExprString(rs.X)
-								}
+					if r, ok := n.(*ast.ReturnStmt); ok {
+						any = true
+						var ro types.Object
+						if len(r.Results) == 1 {
+							if id, isId := ast.Unparen(r.Results[0]).(*ast.Ident); isId {
+								ro = info.Uses[id]
 							}
+						}
+						if ro == nil || hm[ro] == "" || (ret != nil && ret != ro) {
+							okAll = false
+						} else {
+							ret = ro
 						}
 					}
 					return true
 				})
-				return true
-			})
+				if !okAll || !any || ret == nil {
+					continue
+				}
+				pi := 0
+				for _, fl := range hd.Type.Params.List {
+					for _, nm := range fl.Names {
+						if nm.Name == hm[ret] && pi < len(call.Args) {
+							minOf[o] = types.ExprString(call.Args[pi])
+						}
+						pi++
+					}
+				}
+			}
 			ast.Inspect(fd.Body, func(n ast.Node) bool {
 				ix, ok := n.(*ast.IndexExpr)
 				if !ok {
@@ -404,6 +395,66 @@ func ruleIdxUnits(c *Ctx) {
 		}
 	}
 	c.stat("index_and_store_sites", nSites)
+}
+
+// runningMins: locals m that a range over a map lowers with `m = min(m, v)` (either argument order), v the ranged value;
+// the result maps each to the text of the ranged map.
+func runningMins(info *types.Info, body *ast.BlockStmt) map[types.Object]string {
+	out := map[types.Object]string{}
+	ast.Inspect(body, func(n ast.Node) bool {
+		rs, ok := n.(*ast.RangeStmt)
+		if !ok || rs.Value == nil {
+			return true
+		}
+		if _, isMap := info.TypeOf(rs.X).Underlying().(*types.Map); !isMap {
+			return true
+		}
+		vid, ok := rs.Value.(*ast.Ident)
+		if !ok {
+			return true
+		}
+		ast.Inspect(rs.Body, func(m ast.Node) bool {
+			as, ok := m.(*ast.AssignStmt)
+			if !ok || as.Tok != token.ASSIGN || len(as.Lhs) != 1 || len(as.Rhs) != 1 {
+				return true
+			}
+			l, ok := as.Lhs[0].(*ast.Ident)
+			call, ok2 := ast.Unparen(as.Rhs[0]).(*ast.CallExpr)
+			if !ok || !ok2 || len(call.Args) != 2 {
+				return true
+			}
+			fid, ok := call.Fun.(*ast.Ident)
+			if !ok || fid.Name != "min" {
+				return true
+			}
+			if _, isBuiltin := info.ObjectOf(fid).(*types.Builtin); !isBuiltin {
+				return true
+			}
+			a0, ok0 := ast.Unparen(call.Args[0]).(*ast.Ident)
+			a1, ok1 := ast.Unparen(call.Args[1]).(*ast.Ident)
+			if !ok0 || !ok1 {
+				return true
+			}
+			lo := info.ObjectOf(l)
+			if (info.Uses[a0] == lo && info.Uses[a1] == info.Defs[vid]) || (info.Uses[a1] == lo && info.Uses[a0] == info.Defs[vid]) {
+				out[lo] = types.ExprString(rs.X)
+			}
+			return true
+		})
+		return true
+	})
+	return out
+}
+
+func declOfFunc(pk *packages.Package, f *types.Func) *ast.FuncDecl {
+	for _, file := range pk.Syntax {
+		for _, d := range file.Decls {
+			if fd, ok := d.(*ast.FuncDecl); ok && pk.TypesInfo.Defs[fd.Name] == f {
+				return fd
+			}
+		}
+	}
+	return nil
 }
 
 func ruleLoopStuck(c *Ctx) {
